@@ -133,8 +133,15 @@ def rope_model(program):
         elif op == 'clone': regs.append(regs[st[1]])
         elif op == 'add': regs[st[1]] += st[2]
         elif op == 'append': regs[st[1]] += regs[st[2]]
+        elif op == 'line':
+            regs.append(flat_lines(regs[st[1]], True)[st[2]])
         elif op == 'slice':
             b = regs[st[1]].encode('utf-8'); a_, b_ = st[2], st[3]
+            form = st[4] if len(st) > 4 else 'range'
+            if form == 'to': a_ = 0
+            elif form == 'to_incl': a_, b_ = 0, b_ + 1
+            elif form == 'from': b_ = len(b)
+            elif form == 'incl': b_ = b_ + 1
             def bd(k): return k == 0 or k == len(b) or (k < len(b) and (b[k] & 0xC0) != 0x80)
             if not (a_ <= b_ <= len(b) and bd(a_) and bd(b_)): return regs, ('none', len(regs))
             regs.append(b[a_:b_].decode('utf-8'))
